@@ -54,6 +54,10 @@ def run(F, R):
     _lf = _c3.last_used_field(F, M, _by['can_pop'][0]) if 'can_pop' in _by else None
     if _lf and 'pop_used' in _by:
         _c3.e1_e2_pop(F, RuleProxy(R, {'E1': 'K9', 'E2': 'K9'}), M, _by['pop_used'][0], _lf)
+    # K10: with several requests outstanding a further request is refused when the descriptors it needs are not free -
+    # otherwise it overwrites the header / data / status descriptors of a request in flight (capacity table, C03.E3)
+    if _lf and 'add' in _by:
+        _c3.e3_capacity(F, R, M, _by['add'][0], rule='K10', rule1='K10')
     from .C03 import e6_relink
     for _k, _v in roles.items():
         if _v == 'pop_used':
